@@ -7,6 +7,7 @@ CONSTANTS
   MaxBatch = 8
   MaxFail = 1000000
   MaxStops = 1000000
+  MaxCancel = 1000000
   Inflights = {1, 2}
   Hws = {2, 3, 4, 99}
   Caps = {1, 2, 3, 99}
